@@ -1,0 +1,26 @@
+//go:build verif
+
+/*
+ * Hooks for the verification harness in /verif (deterministic simulation). Compiled only with the
+ * build tag "verif"; the shipped node is unchanged.
+ */
+
+package revocation
+
+import "sync"
+
+// SimRefreshMutexHeld reports whether the refresh mutex of any status list is held (simulation only: the scheduler must
+// not park a task that holds it).
+func SimRefreshMutexHeld() bool {
+	held := false
+	refreshMutexes.Range(func(_, value any) bool {
+		mutex := value.(*sync.Mutex)
+		if mutex.TryLock() {
+			mutex.Unlock()
+			return true
+		}
+		held = true
+		return false
+	})
+	return held
+}
